@@ -26,7 +26,7 @@ def few_methods(rng):
 
 
 def cases(O):
-    n = 300 if O.tier == "quick" else 4000
+    n = 700 if O.tier == "quick" else 4000
     cs = E.default_cases(O, "C12", n_quick=n, n_thorough=n, cfg_fn=few_methods)
     odd = ["﻿const a = 1;\r\nconst b = 'x';\r\n", "// café ☃\nconst s = 'été';\n", "﻿function f(a,b){\r\n return a + b;\r\n}\r\n",
            "", " ", "\n\n", "/* only a comment */", "#!/usr/bin/env node\nconsole.log(1)\n", "const t = `a\r\nb`;", "'use strict'",
